@@ -292,7 +292,7 @@ def scan_assumptions(text):
 BOUNDED = [
     # name, properties, quick arg, thorough arg, stands in for
     ('partition', ['C04'], 'partition:16384', 'partition:1048576',
-     'assumed contracts of PrimeFactors::has_factors_leq / has_factors_gt / product_above (iterator one-liners) and the pinned primitives inside the verified partition_factors (iter().all, derived clone, first_mut); cross-check of partition_factors itself; bound: all n below the limit plus structured prime-power products below 2^40'),
+     'declared iterator desugarings of PrimeFactors::has_factors_leq / has_factors_gt / product_above (verified from their pinned one-line text) and the pinned primitives inside the verified partition_factors (iter().all, derived clone, first_mut); cross-check of partition_factors itself; bound: all n below the limit plus structured prime-power products below 2^40'),
     ('plan_scalar', ['C04', 'C05', 'C10', 'C13', 'C14'], 'plan_scalar:1024', 'plan_scalar:12288',
      'assumed constructor contracts of the 20 butterflies and pinned iterator one-liners of the planner, end to end through FftPlannerScalar<f64>::plan_fft (both directions, fresh planner): no panic, len, direction, scratch <= 12n+64; bound: all n below the limit plus structured lengths below 2^18'),
     ('opcount', ['C05'], 'opcount:600,262144,6', 'opcount:3000,1048576,12',
